@@ -1,6 +1,7 @@
 """C11 - the JSON log is a complete, ordered transcript of shell I/O and connections."""
 import brokerlib as B
 import c03
+import c04
 import vlib
 
 CLAUSES = {11: "C11 monitor failed: 'Shell I/O' records are not exactly the delivered lines / displayed chunks in order, an accepted stream lacks "
@@ -23,6 +24,16 @@ def check(run):
     B.run_stream(run, binp, "stalled", 11, c03.stalled(run.rng, 60 if run.tier == "quick" else 1500), CLAUSES,
                  "slow operator terminal (operator channel capacity 1-3 drained at scripted moments): every displayed chunk must equal, piece by "
                  "piece and in order, the oldest 'Shell I/O' output record not yet displayed, and nothing logged may remain undisplayed; monitor only")
+    fl = []
+    for k in (3, 4, 6, 9):
+        for e in ("", "eof", "other"):
+            for cap in (2, 3):      # (capacity 1 would split an admission's two notices over two steps)
+                f = c04.flood(run.rng, k, e, cap)
+                f["ops"] += [{"op": "drain", "n": 64}] * 6
+                fl.append(f)
+    B.run_stream(run, binp, "cancelledflood", 11, fl, CLAUSES,
+                 "output flood into a stalled terminal (capacity 1-3, not drained) and then client cancel: the chunks still waiting are dropped, so "
+                 "they must not appear as 'Shell I/O' records either; then the terminal is drained; monitor only")
     run.assumptions += ["slog.NewJSONHandler's escaping itself is standard library; the check verifies one parsable object per line and record counts, "
                         "data fields are compared before JSON encoding"]
     run.trusted += ["harness/overlay/iobroker", "props/brokerlib.py", "coq/Model/Broker.v tied by this correspondence"]
